@@ -19,14 +19,14 @@ def run(tier, seed):
         mc = [dict(name='C07_points', progs=C.fam(progs), plans=save_plans((1, 2, 3, 4, 5)), alphabet=alpha, k=2, invariants=INV)]
         rp = [dict(name='C07_%s' % m, progs=C.fam(['P03', 'P04', 'P06', 'P07', 'P08', 'P12', 'P13', 'P20', 'P22']), plans=save_plans((1, 2, 3, 4)),
                    alphabet=alpha, k=1, run_kw=rk(m)) for m in ('copy', 'pickle', 'yaml')]
-        rp.append(dict(name='C07_paused', progs=C.fam(['P03', 'P04', 'P13']), plans=[[]], alphabet=alpha, k=3, run_kw=rk('pickle')))
+        rp.append(dict(name='C07_paused', progs=C.fam(['P03', 'P13', 'P14']), plans=[[]], alphabet=['pause', 'play', 'save', 'restore'], k=4, run_kw=rk('pickle')))
         rp.append(dict(name='C07_unsuccessful', progs=down, plans=save_plans((1, 2, 3)), alphabet=['save', 'restore'], k=2, run_kw=rk('yaml')))
         outl = [('C07_outl_%s' % m, om.sample(om.family(4, 3), 250, seed), om.oracles(3), crash_sets(4, 1), m) for m in ('copy', 'yaml')]
     else:
         mc = [dict(name='C07_points', progs=C.fam(progs), plans=save_plans((1, 2, 3, 4, 5)), alphabet=alpha, k=4, invariants=INV)]
         rp = [dict(name='C07_%s' % m, progs=C.fam(progs), plans=save_plans((1, 2, 3, 4, 5)), alphabet=alpha, k=2, run_kw=rk(m))
               for m in ('copy', 'pickle', 'yaml')]
-        rp.append(dict(name='C07_paused', progs=C.fam(progs), plans=[[]], alphabet=alpha, k=3, run_kw=rk('yaml')))
+        rp.append(dict(name='C07_paused', progs=C.fam(progs), plans=[[]], alphabet=['pause', 'play', 'save', 'restore', 'resume'], k=4, run_kw=rk('yaml')))
         rp.append(dict(name='C07_unsuccessful', progs=down, plans=save_plans((1, 2, 3)), alphabet=['save', 'restore'], k=3, run_kw=rk('yaml')))
         outl = [('C07_outl_%s' % m, om.sample(om.family(4, 3), 2000, seed), om.oracles(3), crash_sets(5, 2), m) for m in ('copy', 'pickle', 'yaml')]
     viol = 0
